@@ -47,7 +47,7 @@ def _coef_sum(terms):
     return tot
 
 
-def assembly(ck, sh, mm, gname, nmul):
+def assembly(ck, sh, mm, gname, nmul, then_f=None):
     M = sh.mininec
     T = psistub.AtomTable()
     psistub.install(M, T)
@@ -56,6 +56,11 @@ def assembly(ck, sh, mm, gname, nmul):
     def fn():
         c = symx.ctx()
         m = catalogue.build(M, gname, nmul=nmul)
+        if then_f is not None:
+            # a sweep step: the model was built (and filled) at another frequency before
+            with symx.object_arrays():
+                m.compute_impedance_matrix()
+            m.f = then_f
         with symx.object_arrays():
             m.compute_impedance_matrix()
         n = len(m.pulses)
@@ -89,8 +94,8 @@ def assembly(ck, sh, mm, gname, nmul):
 
     def replay(conc, gn, out):
         i, j = [int(x) for x in gn.split(']')[0:2][0].split('[')[1:2] + gn.split('][')[1].split(']')[0:1]]
-        return replay_entry(mm, gname, nmul, i, j)
-    prove_paths(ck, 'assembly-%s-x%d' % (gname, nmul), fn, goals, replay, max_paths=2,
+        return replay_entry(mm, gname, nmul, i, j, then_f)
+    prove_paths(ck, 'assembly-%s-x%d%s' % (gname, nmul, '' if then_f is None else '-then-%gMHz' % then_f), fn, goals, replay, max_paths=2,
                 timeout_ms=20000 if ck.tier == 'quick' else 120000, twin_timeout_ms=20000)
     # (D) order rule on the integrations this run asked for
     order_rule(ck, gname, nmul, T, holder.get('m'))
@@ -98,10 +103,13 @@ def assembly(ck, sh, mm, gname, nmul):
                                                 % (gname, nmul, len(holder['m'].pulses) if holder.get('m') else -1, len(T.atoms)))
 
 
-def replay_entry(mm, gname, nmul, i, j):
+def replay_entry(mm, gname, nmul, i, j, then_f=None):
     """The property's own sentence on the real code for one entry."""
     m = catalogue.build(mm, gname, nmul=nmul)
     m.compute_impedance_matrix()
+    if then_f is not None:
+        m.f = then_f
+        m.compute_impedance_matrix()
     v, terms = mininec3.entry(m, i, j, mininec3.quad_psi(m))
     sc = sum(abs(t) for t in terms)
     err = abs(v - m.Z[i, j])
@@ -268,6 +276,9 @@ def main(args):
         parts = [('assembly', (g, 2)) for g in ('G2', 'G4', 'G6', 'G8', 'G9', 'G11', 'G15', 'G16', 'G19', 'G20', 'G21', 'G22')]
     else:
         parts = [('assembly', (g, 3)) for g in catalogue.CAT]
+    # sweep steps: thick wires at the thin-wire limit (G19/G20) and ordinary ones, second frequency on the other side of the small-radius limit
+    parts += [('assembly', (g, 2, 12.0)) for g in (('G19', 'G2') if ck.tier == 'quick' else ('G19', 'G20', 'G2', 'G9', 'G11'))]
+    parts += [('assembly', ('G24', 1)), ('assembly', ('G24', 1, 0.125))]
     parts += [('gauss_exact', ())]
     parts += [('kernel', (th, im)) for th in (True, False) for im in (False, True)]
     run_parallel(ck, 'checks.c02', parts)
